@@ -7,6 +7,10 @@ mod c03;
 mod c04;
 mod c05;
 mod c06;
+mod c07;
+mod c08;
+mod c09;
+mod c10;
 mod e2;
 mod c19;
 mod e1;
@@ -45,6 +49,10 @@ fn main() {
         "C04" => c04::run(tier, replay),
         "C05" => c05::run(tier, replay),
         "C06" => c06::run(tier, replay),
+        "C07" => c07::run(tier, replay),
+        "C08" => c08::run(tier, replay),
+        "C09" => c09::run(tier, replay),
+        "C10" => c10::run(tier, replay),
         "C19" => c19::run(tier, replay),
         other => {
             eprintln!("unknown property id {}", other);
